@@ -36,7 +36,7 @@ func init() {
 			{ID: "C02-R13", Title: "cells point into the activation's captured locals", Floor: 1, Run: cellsPointIntoFrameStorage},
 			{ID: "C02-R14", Title: "block scopes are opened on every path that compiles the block (shared with C01)", Floor: 3, Run: blockScopesOpenedUnconditionally},
 			{ID: "C02-R15", Title: "reload re-points every function of the reloaded code, whatever its nesting depth (shared with C18-R3)", Floor: 2, Run: c18r3},
-			{ID: "C02-R16", Title: "stores to resolved names test constness first (shared with C01)", Floor: 4, Run: storesToResolvedNamesCheckConstness},
+			{ID: "C02-R16", Title: "stores to resolved names test constness first (shared with C01)", Floor: 2, Run: storesToResolvedNamesCheckConstness},
 			{ID: "C02-R17", Title: "frame storage is per activation and re-pointed by its owners only", Floor: 3, Run: frameStorageIsPerActivation},
 			{ID: "C02-R18", Title: "the kind of a captured cell follows the resolution", Floor: 1, Run: cellKindFollowsTheResolution},
 			{ID: "C02-R19", Title: "a memo is read where it is written", Floor: 1, Run: memoIsReadWhereItIsWritten},
@@ -46,6 +46,7 @@ func init() {
 			{ID: "C02-R23", Title: "the slot of a named function is filled whenever it was reserved", Floor: 1, Run: theSelfSlotIsFilledWheneverItWasReserved},
 			{ID: "C02-R24", Title: "every symbol has a slot of its own (shared with C01-R36)", Floor: 1, Run: everySymbolHasASlotOfItsOwn},
 			{ID: "C02-R25", Title: "handed-down cells are indexed by the enclosing function", Floor: 1, Run: handedDownCellsAreIndexedByTheEnclosingFunction},
+			{ID: "C02-R26", Title: "names are read from their storage (shared with C18-R25)", Floor: 3, Run: namesAreReadFromTheirStorage},
 		},
 	})
 }
